@@ -166,8 +166,10 @@ def r3(ctx):
             f_mtu = any(place_last_field(op_place(s["r"]["o"])) == K + "mtu" for s in m.stmts(fe[0][1]) if s["r"]["k"] == "use" and op_place(s["r"]["o"])) if fe else False
             ctx.inst(R, "mss_for:mtu-selection", okarg and t_lo and f_mtu, o["t"]["s"], "loopback source -> loopback_mtu, otherwise mtu" if okarg and t_lo and f_mtu else
                      "mss_for does not select loopback_mtu for a loopback source and mtu otherwise")
-        subs = list(m.calls(re.compile(r"saturating_sub$")))
-        ctx.inst(R, "mss_for:headers", len(subs) == 2, m.span, "IP and TCP header sizes are subtracted" if len(subs) == 2 else f"{len(subs)} header subtraction(s) instead of 2")
+        forms, want, consts = _header_forms(m, "TCP_HEADER_SIZE")
+        okh = want is not None and forms == want
+        ctx.inst(R, "mss_for:headers", okh, m.span, f"MSS = MTU - (IP header + TCP header): {sorted(forms)}" if okh else
+                 f"mss_for is not MTU minus the IP header and the TCP header in each address family (offsets found {sorted(forms)}, constants {consts})")
     ctx.floor(R, 5)
 
 
@@ -223,20 +225,7 @@ def r4(ctx):
         ctx.inst(R, "send:emsgsize", ems and nopush, b.term(e[1]).get("s", b.span), "oversized datagram is rejected with EMSGSIZE" if ems and nopush else "oversized datagram is not rejected with EMSGSIZE")
     mp = ctx.body(R, "turmoil_net::kernel::udp::max_payload")
     if mp:
-        consts = {}
-        for bb, i, s in mp.all_stmts():
-            for o in [s["r"].get("o"), s["r"].get("a"), s["r"].get("b")]:
-                c = op_const(o) if isinstance(o, dict) else None
-                if c and c.get("def"):
-                    consts[c["def"].rsplit("::", 1)[1]] = c.get("v")
-        for bb, t in mp.calls():
-            for a in t["args"]:
-                c = op_const(a)
-                if c and c.get("def"):
-                    consts[c["def"].rsplit("::", 1)[1]] = c.get("v")
-        forms = affine_forms(mp, {"c": {"l": 0}})
-        want = {(1, -(consts.get(ip, 0) + consts.get("UDP_HEADER_SIZE", 0))) for ip in ("IPV4_HEADER_SIZE", "IPV6_HEADER_SIZE")} \
-            if {"IPV4_HEADER_SIZE", "IPV6_HEADER_SIZE", "UDP_HEADER_SIZE"} <= set(consts) else None
+        forms, want, consts = _header_forms(mp, "UDP_HEADER_SIZE")
         okh = want is not None and forms == want
         ctx.inst(R, "max_payload:headers", okh, mp.span, f"payload room = MTU - (IP header + UDP header): {sorted(forms)}" if okh else
                  f"max_payload is not MTU minus the IP header and the UDP header in each address family (offsets found {sorted(forms)}, constants {consts})")
@@ -259,6 +248,26 @@ def r4(ctx):
                  f"udp::max_payload chooses the loopback MTU under {sorted(pa)} but tcp::mss_for under {sorted(pb)}: on a path where they differ one protocol "
                  "accepts a payload that the other bounds by the smaller MTU (a datagram larger than the MTU of the interface it leaves from is accepted)")
     ctx.floor(R, 3)
+
+
+def _header_forms(fb, l4):
+    """affine forms of the function's result, and the forms wanted: one symbolic input (the MTU) minus IP header minus the layer-4 header,
+    per address family; the header sizes are the named constants the function itself uses"""
+    consts = {}
+    for bb, i, s in fb.all_stmts():
+        for o in [s["r"].get("o"), s["r"].get("a"), s["r"].get("b")]:
+            c = op_const(o) if isinstance(o, dict) else None
+            if c and c.get("def"):
+                consts[c["def"].rsplit("::", 1)[1]] = c.get("v")
+    for bb, t in fb.calls():
+        for a in t["args"]:
+            c = op_const(a)
+            if c and c.get("def"):
+                consts[c["def"].rsplit("::", 1)[1]] = c.get("v")
+    forms = affine_forms(fb, {"c": {"l": 0}})
+    want = {(1, -(consts.get(ip, 0) + consts.get(l4, 0))) for ip in ("IPV4_HEADER_SIZE", "IPV6_HEADER_SIZE")} \
+        if {"IPV4_HEADER_SIZE", "IPV6_HEADER_SIZE", l4} <= set(consts) else None
+    return forms, want, consts
 
 
 def _rv_ops(r):
